@@ -221,6 +221,7 @@ where
     C: BlockCipherEncrypt + Clone + AlgorithmName + 'static,
     F: ctr::CtrFlavor<C::BlockSize> + 'static,
     <F as ctr::CtrFlavor<C::BlockSize>>::Backend: Copy,
+    ctr::CtrCore<C, F>: Debug,
 {
     fn c_seekable() -> bool {
         true
@@ -244,7 +245,7 @@ where
         Some(self.clone())
     }
     fn c_debug(&self) -> String {
-        format!("{:?}", self)
+        format!("{:?}\n{:#?}", self, self)
     }
     fn c_alg() -> String {
         fmt_alg::<Self>()
@@ -256,10 +257,18 @@ where
         w_pos(w, ty)
     }
     fn w_debug(w: &StreamCipherCoreWrapper<Self>) -> String {
-        format!("{:?}", w)
+        format!("{:?}\n{:#?}", w, w)
     }
     fn w_clone(w: &StreamCipherCoreWrapper<Self>) -> Option<StreamCipherCoreWrapper<Self>> {
         Some(w.clone())
+    }
+    fn c_clone_from(&mut self, src: &Self) -> bool {
+        self.clone_from(src);
+        true
+    }
+    fn w_clone_from(dst: &mut StreamCipherCoreWrapper<Self>, src: &StreamCipherCoreWrapper<Self>) -> bool {
+        dst.clone_from(src);
+        true
     }
 }
 
@@ -274,16 +283,24 @@ where
         Some(self.clone())
     }
     fn c_debug(&self) -> String {
-        format!("{:?}", self)
+        format!("{:?}\n{:#?}", self, self)
     }
     fn c_alg() -> String {
         fmt_alg::<Self>()
     }
     fn w_debug(w: &StreamCipherCoreWrapper<Self>) -> String {
-        format!("{:?}", w)
+        format!("{:?}\n{:#?}", w, w)
     }
     fn w_clone(w: &StreamCipherCoreWrapper<Self>) -> Option<StreamCipherCoreWrapper<Self>> {
         Some(w.clone())
+    }
+    fn c_clone_from(&mut self, src: &Self) -> bool {
+        self.clone_from(src);
+        true
+    }
+    fn w_clone_from(dst: &mut StreamCipherCoreWrapper<Self>, src: &StreamCipherCoreWrapper<Self>) -> bool {
+        dst.clone_from(src);
+        true
     }
 }
 
@@ -305,7 +322,7 @@ macro_rules! caps_belt {
                 f(self)
             }
             fn c_debug(&self) -> String {
-                format!("{:?}", self)
+                format!("{:?}\n{:#?}", self, self)
             }
             fn c_alg() -> String {
                 fmt_alg::<Self>()
@@ -317,7 +334,7 @@ macro_rules! caps_belt {
                 w_pos(w, ty)
             }
             fn w_debug(w: &StreamCipherCoreWrapper<Self>) -> String {
-                format!("{:?}", w)
+                format!("{:?}\n{:#?}", w, w)
             }
         }
     };
@@ -460,7 +477,22 @@ where
         .map_err(|_| MkErr::Rejected)
 }
 
+/// the core type behind a public byte-stream alias: the harness names types only through the
+/// aliases users write (ctr::Ctr64LE<C>, ofb::Ofb<C>, belt_ctr::BeltCtr<C>)
+pub trait AliasCore {
+    type Core;
+}
+impl<T: cipher::StreamCipherCore> AliasCore for StreamCipherCoreWrapper<T> {
+    type Core = T;
+}
+pub type CoreOf<A> = <A as AliasCore>::Core;
+
 macro_rules! ctr_core {
+    // 16-byte blocks (valid for every flavour): named through the public alias, so that an alias
+    // bound to the wrong flavour still compiles and shows up as a violation
+    ($C:ty, $c:expr, $F:ident, $key:expr, $iv:expr, $ctor:expr, alias) => {
+        core::<CoreOf<ctr::$F<$C>>>($c, $key, $iv, $ctor)
+    };
     ($C:ty, $c:expr, $F:ident, $key:expr, $iv:expr, $ctor:expr) => {
         core::<ctr::CtrCore<$C, ctr::flavors::$F>>($c, $key, $iv, $ctor)
     };
@@ -469,6 +501,7 @@ macro_rules! ctr_core {
 macro_rules! ctr_sizes {
     ($bs:expr, $F:ident, $Cm:ident, $key:expr, $iv:expr, $ctor:expr, $tag:expr; $($n:literal => $U:ty),*) => {
         match $bs {
+            16 => ctr_core!($Cm<U16>, $Cm::<U16>::with_tag($key, $tag), $F, $key, $iv, $ctor, alias),
             $( $n => ctr_core!($Cm<$U>, $Cm::<$U>::with_tag($key, $tag), $F, $key, $iv, $ctor), )*
             _ => Err(MkErr::Unsupported),
         }
@@ -478,12 +511,12 @@ macro_rules! ctr_sizes {
 macro_rules! ctr_family {
     ($mode:expr, $bs:expr, $Cm:ident, $key:expr, $iv:expr, $ctor:expr, $tag:expr) => {
         match $mode {
-            "ctr32be" => ctr_sizes!($bs, Ctr32BE, $Cm, $key, $iv, $ctor, $tag; 4 => U4, 8 => U8, 12 => U12, 16 => U16, 252 => U252),
-            "ctr32le" => ctr_sizes!($bs, Ctr32LE, $Cm, $key, $iv, $ctor, $tag; 4 => U4, 8 => U8, 12 => U12, 16 => U16, 252 => U252),
-            "ctr64be" => ctr_sizes!($bs, Ctr64BE, $Cm, $key, $iv, $ctor, $tag; 8 => U8, 16 => U16, 24 => U24, 248 => U248),
-            "ctr64le" => ctr_sizes!($bs, Ctr64LE, $Cm, $key, $iv, $ctor, $tag; 8 => U8, 16 => U16, 24 => U24, 248 => U248),
-            "ctr128be" => ctr_sizes!($bs, Ctr128BE, $Cm, $key, $iv, $ctor, $tag; 16 => U16, 32 => U32, 240 => U240),
-            "ctr128le" => ctr_sizes!($bs, Ctr128LE, $Cm, $key, $iv, $ctor, $tag; 16 => U16, 32 => U32, 240 => U240),
+            "ctr32be" => ctr_sizes!($bs, Ctr32BE, $Cm, $key, $iv, $ctor, $tag; 4 => U4, 8 => U8, 12 => U12, 252 => U252),
+            "ctr32le" => ctr_sizes!($bs, Ctr32LE, $Cm, $key, $iv, $ctor, $tag; 4 => U4, 8 => U8, 12 => U12, 252 => U252),
+            "ctr64be" => ctr_sizes!($bs, Ctr64BE, $Cm, $key, $iv, $ctor, $tag; 8 => U8, 24 => U24, 248 => U248),
+            "ctr64le" => ctr_sizes!($bs, Ctr64LE, $Cm, $key, $iv, $ctor, $tag; 8 => U8, 24 => U24, 248 => U248),
+            "ctr128be" => ctr_sizes!($bs, Ctr128BE, $Cm, $key, $iv, $ctor, $tag; 32 => U32, 240 => U240),
+            "ctr128le" => ctr_sizes!($bs, Ctr128LE, $Cm, $key, $iv, $ctor, $tag; 32 => U32, 240 => U240),
             _ => Err(MkErr::Unsupported),
         }
     };
@@ -493,6 +526,14 @@ macro_rules! ctr_real {
     ($mode:expr, $C:ty, $key:expr, $iv:expr, $ctor:expr, $tag:expr; $($name:literal => $F:ident),*) => {
         match $mode {
             $( $name => ctr_core!(Traced<$C>, real_key::<$C>($key, $tag), $F, $key, $iv, $ctor), )*
+            _ => Err(MkErr::Unsupported),
+        }
+    };
+}
+macro_rules! ctr_real_alias {
+    ($mode:expr, $C:ty, $key:expr, $iv:expr, $ctor:expr, $tag:expr; $($name:literal => $F:ident),*) => {
+        match $mode {
+            $( $name => ctr_core!(Traced<$C>, real_key::<$C>($key, $tag), $F, $key, $iv, $ctor, alias), )*
             _ => Err(MkErr::Unsupported),
         }
     };
@@ -508,7 +549,7 @@ pub fn make_core(mode: &str, bs: usize, ck: CK, key: &[u8], iv: &[u8], tag: u8, 
             CK::Sim => {
                 macro_rules! go {
                     ($U:ty, $x:expr) => {
-                        core::<ofb::OfbCore<SimCipher<$U>>>(SimCipher::<$U>::with_tag(key, tag), key, iv, ctor)
+                        core::<CoreOf<ofb::Ofb<SimCipher<$U>>>>(SimCipher::<$U>::with_tag(key, tag), key, iv, ctor)
                     };
                 }
                 general_bs!(bs, go, ())
@@ -516,30 +557,30 @@ pub fn make_core(mode: &str, bs: usize, ck: CK, key: &[u8], iv: &[u8], tag: u8, 
             CK::SimEnc => {
                 macro_rules! go {
                     ($U:ty, $x:expr) => {
-                        core::<ofb::OfbCore<SimCipherEnc<$U>>>(SimCipherEnc::<$U>::with_tag(key, tag), key, iv, ctor)
+                        core::<CoreOf<ofb::Ofb<SimCipherEnc<$U>>>>(SimCipherEnc::<$U>::with_tag(key, tag), key, iv, ctor)
                     };
                 }
                 general_bs!(bs, go, ())
             }
-            CK::Aes128 => core::<ofb::OfbCore<Traced<Aes128>>>(real_key(key, tag), key, iv, ctor),
-            CK::Magma => core::<ofb::OfbCore<Traced<Magma>>>(real_key(key, tag), key, iv, ctor),
+            CK::Aes128 => core::<CoreOf<ofb::Ofb<Traced<Aes128>>>>(real_key(key, tag), key, iv, ctor),
+            CK::Magma => core::<CoreOf<ofb::Ofb<Traced<Magma>>>>(real_key(key, tag), key, iv, ctor),
             _ => Err(MkErr::Unsupported),
         };
     }
     if mode == "belt" {
         return match ck {
-            CK::Sim => core::<belt_ctr::BeltCtrCore<SimCipher<U16>>>(SimCipher::with_tag(key, tag), key, iv, ctor),
-            CK::SimEnc => core::<belt_ctr::BeltCtrCore<SimCipherEnc<U16>>>(SimCipherEnc::with_tag(key, tag), key, iv, ctor),
-            CK::Belt => core::<belt_ctr::BeltCtrCore<Traced<BeltBlock>>>(real_key(key, tag), key, iv, ctor),
+            CK::Sim => core::<CoreOf<belt_ctr::BeltCtr<SimCipher<U16>>>>(SimCipher::with_tag(key, tag), key, iv, ctor),
+            CK::SimEnc => core::<CoreOf<belt_ctr::BeltCtr<SimCipherEnc<U16>>>>(SimCipherEnc::with_tag(key, tag), key, iv, ctor),
+            CK::Belt => core::<CoreOf<belt_ctr::BeltCtr<Traced<BeltBlock>>>>(real_key(key, tag), key, iv, ctor),
             _ => Err(MkErr::Unsupported),
         };
     }
     match ck {
         CK::Sim => ctr_family!(mode, bs, SimCipher, key, iv, ctor, tag),
         CK::SimEnc => ctr_family!(mode, bs, SimCipherEnc, key, iv, ctor, tag),
-        CK::Aes128 => ctr_real!(mode, Aes128, key, iv, ctor, tag; "ctr32be" => Ctr32BE, "ctr32le" => Ctr32LE,
+        CK::Aes128 => ctr_real_alias!(mode, Aes128, key, iv, ctor, tag; "ctr32be" => Ctr32BE, "ctr32le" => Ctr32LE,
             "ctr64be" => Ctr64BE, "ctr64le" => Ctr64LE, "ctr128be" => Ctr128BE, "ctr128le" => Ctr128LE),
-        CK::Kuz => ctr_real!(mode, Kuznyechik, key, iv, ctor, tag; "ctr32be" => Ctr32BE, "ctr32le" => Ctr32LE,
+        CK::Kuz => ctr_real_alias!(mode, Kuznyechik, key, iv, ctor, tag; "ctr32be" => Ctr32BE, "ctr32le" => Ctr32LE,
             "ctr64be" => Ctr64BE, "ctr64le" => Ctr64LE, "ctr128be" => Ctr128BE, "ctr128le" => Ctr128LE),
         CK::Magma => ctr_real!(mode, Magma, key, iv, ctor, tag; "ctr32be" => Ctr32BE, "ctr32le" => Ctr32LE,
             "ctr64be" => Ctr64BE, "ctr64le" => Ctr64LE),
@@ -578,21 +619,20 @@ where
 /// direct construction of the alias types for the toy cipher at a few sizes and the real ciphers
 fn make_stream_direct(mode: &str, bs: usize, ck: CK, key: &[u8], iv: &[u8], tag: u8, ctor: u8) -> Option<Result<Box<dyn StreamObj>, MkErr>> {
     crate::simcipher::env_new_tag(tag);
-    use ctr::flavors::*;
     Some(match (mode, bs, ck) {
-        ("ctr32be", 16, CK::Sim) => wrap::<ctr::CtrCore<SimCipher<U16>, Ctr32BE>>(key, iv, ctor),
-        ("ctr32le", 8, CK::Sim) => wrap::<ctr::CtrCore<SimCipher<U8>, Ctr32LE>>(key, iv, ctor),
-        ("ctr64be", 8, CK::Sim) => wrap::<ctr::CtrCore<SimCipher<U8>, Ctr64BE>>(key, iv, ctor),
-        ("ctr64le", 16, CK::Sim) => wrap::<ctr::CtrCore<SimCipher<U16>, Ctr64LE>>(key, iv, ctor),
-        ("ctr128be", 16, CK::Sim) => wrap::<ctr::CtrCore<SimCipher<U16>, Ctr128BE>>(key, iv, ctor),
-        ("ctr128le", 32, CK::Sim) => wrap::<ctr::CtrCore<SimCipher<U32>, Ctr128LE>>(key, iv, ctor),
-        ("ctr128be", 16, CK::Aes128) => wrap::<ctr::CtrCore<Traced<Aes128>, Ctr128BE>>(key, iv, ctor),
-        ("ctr32le", 16, CK::Aes128) => wrap::<ctr::CtrCore<Traced<Aes128>, Ctr32LE>>(key, iv, ctor),
-        ("ofb", 16, CK::Sim) => wrap::<ofb::OfbCore<SimCipher<U16>>>(key, iv, ctor),
-        ("ofb", 3, CK::Sim) => wrap::<ofb::OfbCore<SimCipher<U3>>>(key, iv, ctor),
-        ("ofb", 16, CK::Aes128) => wrap::<ofb::OfbCore<Traced<Aes128>>>(key, iv, ctor),
-        ("belt", 16, CK::Sim) => wrap::<belt_ctr::BeltCtrCore<SimCipher<U16>>>(key, iv, ctor),
-        ("belt", 16, CK::Belt) => wrap::<belt_ctr::BeltCtrCore<Traced<BeltBlock>>>(key, iv, ctor),
+        ("ctr32be", 16, CK::Sim) => wrap::<CoreOf<ctr::Ctr32BE<SimCipher<U16>>>>(key, iv, ctor),
+        ("ctr32le", 8, CK::Sim) => wrap::<ctr::CtrCore<SimCipher<U8>, ctr::flavors::Ctr32LE>>(key, iv, ctor),
+        ("ctr64be", 8, CK::Sim) => wrap::<ctr::CtrCore<SimCipher<U8>, ctr::flavors::Ctr64BE>>(key, iv, ctor),
+        ("ctr64le", 16, CK::Sim) => wrap::<CoreOf<ctr::Ctr64LE<SimCipher<U16>>>>(key, iv, ctor),
+        ("ctr128be", 16, CK::Sim) => wrap::<CoreOf<ctr::Ctr128BE<SimCipher<U16>>>>(key, iv, ctor),
+        ("ctr128le", 32, CK::Sim) => wrap::<ctr::CtrCore<SimCipher<U32>, ctr::flavors::Ctr128LE>>(key, iv, ctor),
+        ("ctr128be", 16, CK::Aes128) => wrap::<CoreOf<ctr::Ctr128BE<Traced<Aes128>>>>(key, iv, ctor),
+        ("ctr32le", 16, CK::Aes128) => wrap::<CoreOf<ctr::Ctr32LE<Traced<Aes128>>>>(key, iv, ctor),
+        ("ofb", 16, CK::Sim) => wrap::<CoreOf<ofb::Ofb<SimCipher<U16>>>>(key, iv, ctor),
+        ("ofb", 3, CK::Sim) => wrap::<CoreOf<ofb::Ofb<SimCipher<U3>>>>(key, iv, ctor),
+        ("ofb", 16, CK::Aes128) => wrap::<CoreOf<ofb::Ofb<Traced<Aes128>>>>(key, iv, ctor),
+        ("belt", 16, CK::Sim) => wrap::<CoreOf<belt_ctr::BeltCtr<SimCipher<U16>>>>(key, iv, ctor),
+        ("belt", 16, CK::Belt) => wrap::<CoreOf<belt_ctr::BeltCtr<Traced<BeltBlock>>>>(key, iv, ctor),
         _ => return None,
     })
 }
